@@ -7,13 +7,30 @@
   Optional field "queue": "heap" runs the model over the transcription of CPython's array heap
   (`heapQ`): equal-key events are then processed in exactly the order the real `EventQueue` hands
   them out; default / "canonical": the stable-sort queue of `EventCore.lean`.
+  Optional field "steps": [<sched>, …]: instead of `run()`, one `Simulator.step(sched)` call per
+  entry (`AcnModel/SimStep.lean`); the answer carries "step_results": [[err|null, done|null, iter]].
 -/
 import AcnModel.WireSim
 import AcnModel.SimQ
+import AcnModel.SimStep
 open Lean Acn Acn.Wire Acn.EventCore Acn.Sim
+
+def jStepResult (r : Except StepErr Bool × Nat) : Json :=
+  match r.1 with
+  | .error e => Json.arr #[jS e.name, Json.null, jN r.2]
+  | .ok b => Json.arr #[Json.null, jB b, jN r.2]
+
+def handleSteps (cfg : Sim.Cfg Float) (sj : Json) : Except String Json := do
+  let scheds ← (← asArr sj).mapM parseSchedule
+  let r := Sim.steps cfg (fuelFor cfg.core) scheds (Sim.init cfg)
+  pure (Json.mkObj ([("step_results", jList jStepResult r.2), ("err", Json.null),
+                     ("fuel_exhausted", jB false)] ++ jSimState cfg r.1))
 
 def handle (j : Json) : Except String Json := do
   let cfg ← parseSimCfg j
+  match j.getObjVal? "steps" with
+  | .ok sj => handleSteps cfg sj
+  | .error _ =>
   let sched ← parseSched (← j.getObjVal? "sched")
   let fuel := fuelFor cfg.core
   let heap := match j.getObjVal? "queue" with
